@@ -142,6 +142,14 @@ def join_blocks(
     module = block1.module
     assert ir and module and block2.section
 
+    if not block1.size:
+        # block2's references are about to become start-of-block references of
+        # the (empty) block1. Its end-of-block symbols have to stay at the end
+        # of the joined block, so move those individually first.
+        for sym in tuple(cache.reference_cache.get_references(block2)):
+            if sym.at_end:
+                cache.reference_cache.set_referent(sym, block1, True)
+
     cache.reference_cache.retarget_references(
         block2, block1, bool(block1.size)
     )
